@@ -567,7 +567,61 @@ def _check_script(buf, ops, out_lines):
     return None
 
 
+def typed_witness(ctx):
+    """every typed request (one per enum / mask kind) of the tree under check on chosen words: declared values and bits, the empty
+    mask, undeclared neighbours, all ones - accepted iff declared, the value is the word, one word consumed; rejected with the
+    kind's own error carrying offset and word (generated program)"""
+    from .common import enum_variants, SPIRV
+    from .kani_masks import mask_decls
+    src = Source.get(GEN)
+    masks = {T: dict(c) for T, c in mask_decls()}
+    lines = ["// generated by /verif/units/decoder.py", "#![allow(unused)]", "use rspirv::binary::Decoder;", "use rspirv::spirv;", "fn main() {", "    let mut bad = 0;"]
+    n = 0
+    for imp in src.find_all("impl", lambda i: i.impl_of == "Decoder"):
+        for f in imp.children:
+            if f.kind != "fn":
+                continue
+            m = re.search(r"->\s*Result<spirv::(\w+)>", f.core_text)
+            if not m:
+                continue
+            T = m.group(1)
+            if T in masks:
+                allb = 0
+                for v in masks[T].values():
+                    allb |= v
+                words = sorted(set([0, allb, 0xffffffff, 0x80000000] + list(masks[T].values()) + [1 << k for k in range(32) if not (allb >> k) & 1][:3]))
+                okf = lambda w, allb=allb: (w & ~allb & 0xffffffff) == 0
+                val = "v.bits()"
+            else:
+                try:
+                    decl = set(v for _, v in enum_variants(Source.get(SPIRV).find("enum", T)))
+                except Exception:
+                    continue
+                words = sorted(set(list(decl)[:40] + [max(decl), min(decl)] + [v + 1 for v in list(decl)[:40]] + [max(decl) + 1, 0xffffffff, 0x7ffffffe]))
+                words = [w for w in words if 0 <= w <= 0xffffffff]
+                okf = lambda w, decl=decl: w in decl
+                val = "v as u32"
+            for w in words:
+                n += 1
+                lines.append("    { let b = [%d, %d, %d, %d, 9, 9, 9, 9u8]; let mut d = Decoder::new(&b); let r = d.%s(); let off = d.offset();" % (w & 255, (w >> 8) & 255, (w >> 16) & 255, (w >> 24) & 255, f.name))
+                if okf(w):
+                    lines.append("      match r { Ok(v) if %s == %du32 && off == 4 => {}, other => { bad += 1; println!(\"MISMATCH %s() on word %#x: {:?} offset {} (a declared value: expected Ok and one word consumed)\", other, off); } } }" % (val, w, f.name, w))
+                else:
+                    lines.append("      match r { Err(_) => {}, other => { bad += 1; println!(\"MISMATCH %s() on word %#x: {:?} (not a declared value: expected the kind's Unknown error)\", other); } } }" % (f.name, w))
+    lines += ['    println!("checked %d requests, {} mismatches", bad);' % n, "}"]
+    p, err = ctx["vgen"]("typed_witness", "\n".join(lines), [])
+    if p is None:
+        return {"found": False, "error": err}
+    out = p.stdout.splitlines()
+    mm = [l for l in out if l.startswith("MISMATCH")]
+    return {"found": bool(mm), "input": mm[:6], "observed": out[-1:]}
+
+
 def witness(failure, ctx):
+    tw = typed_witness(ctx)
+    if tw.get("found"):
+        tw.update({"exhaustive": False, "how": "generated program: every typed decoder request on declared / undeclared / empty / all-ones words (real Decoder)"})
+        return tw
     bufs = []
     for n in range(0, 10):
         bufs.append([0x61] * n)
